@@ -40,9 +40,14 @@ pub struct Acc {
     pub calls: u64,
     pub compared: u64,
     pub outcomes: BTreeMap<String, u64>,
+    /// allocation-free variant for hot loops: (static name, small number) -> count
+    pub souts: BTreeMap<(&'static str, u32), u64>,
 }
 
 impl Acc {
+    pub fn sout(&mut self, k: &'static str, n: u32) {
+        *self.souts.entry((k, n)).or_insert(0) += 1;
+    }
     pub fn outcome(&mut self, k: &str) {
         if let Some(v) = self.outcomes.get_mut(k) {
             *v += 1;
@@ -130,6 +135,9 @@ impl Report {
         let mut o = self.outcomes.lock().unwrap();
         for (k, v) in a.outcomes {
             *o.entry(k).or_insert(0) += v;
+        }
+        for ((k, n), v) in a.souts {
+            *o.entry(format!("{}:{}", k, n)).or_insert(0) += v;
         }
     }
 
